@@ -86,7 +86,7 @@ def run_shard(ctx):
             res = identify_target_outcomes(
                 g, target_outcomes={Variable(y) for y in q["Y"]}, target_interventions={Variable(x) for x in q["X"]},
                 surrogate_outcomes={Variable(p): {Variable(w) for w in zw[1]} for p, zw in doms.items()},
-                surrogate_interventions={Variable(p): {Variable(z) for z in zw[0]} for p, zw in doms.items()})
+                surrogate_interventions={Variable(p): {Variable(z) for z in doms[p][0]} for p in reversed(list(doms))})
         except Exception:  # noqa: BLE001
             pass
         ctx.case(f"trso|{gg.key(gd)}|{q['X']}|{q['Y']}|{sorted(doms.items())}", res is not None and _nleaves(res) >= 2,
@@ -119,7 +119,7 @@ def run_shard(ctx):
             res = identify_target_outcomes(
                 g, target_outcomes={Variable(y) for y in q["Y"]}, target_interventions={Variable(x) for x in q["X"]},
                 surrogate_outcomes={Variable(p): {Variable(w) for w in zw[1]} for p, zw in doms.items()},
-                surrogate_interventions={Variable(p): {Variable(z) for z in zw[0]} for p, zw in doms.items()})
+                surrogate_interventions={Variable(p): {Variable(z) for z in doms[p][0]} for p in reversed(list(doms))})
         except Exception:  # noqa: BLE001
             pass
         ctx.case(f"trso|{gg.key(gd)}|{q['X']}|{q['Y']}|{sorted(doms.items())}", res is not None and _nleaves(res) >= 2)
